@@ -94,6 +94,9 @@ def gen_sdss_spec(rng):
     return {'kind': 'sdss', 'files': out, 'platelist': gen_platelist(rng, out, True) if rng.random() < 0.5 else None}
 
 
+_SPEC_NO = [0]
+
+
 def gen_tree_spec(rng, kind, thorough):
     """kind: 'full' (spZbest + photoPlate + spZall everywhere), 'bare' (spPlate only), 'mixed' (spZbest / spZall for some
     files only), 'sdss' (640-fibre plates before MJD 55025)"""
@@ -113,7 +116,8 @@ def gen_tree_spec(rng, kind, thorough):
         files.append([files[0][0], files[0][1] + rng.randint(1, 300)])
     rng.shuffle(files)
     files = files[:9]
-    if rng.random() < 0.35:
+    _SPEC_NO[0] += 1
+    if _SPEC_NO[0] % 2 == 1 or rng.random() < 0.2:
         # the first night of the BOSS spectrographs: MJD 55025 itself is NOT "before MJD 55025" (the fibre count of such a
         # plate comes from platelist.fits, not from the 640 of SDSS-I/II)
         k = rng.randrange(len(files))
